@@ -1,7 +1,179 @@
 /-
-Helper lemmas for Props/C12B.lean (BcfCodec).
+Helper lemmas for Props/C12B.lean (BcfCodec): the BCF decoder model inverts the BCF encoder model — length words,
+one record (shared block, per-sample GT block), the record loop, the whole file.
 -/
-import SfsModel.Model.Container
+import SfsModel.Lemmas.VcfHeader
 namespace Sfs
+
+/-! ## little-endian words, `takeN` -/
+
+theorem leNat_toLe32 (n : Nat) (h : n < 2 ^ 32) : leNat (toLe32 n) = n := by
+  simp only [toLe32, leNat]; omega
+
+theorem toLe32_length (n : Nat) : (toLe32 n).length = 4 := rfl
+
+theorem takeN_append (a b : List Nat) : takeN a.length (a ++ b) = some (a, b) := by
+  simp [takeN]
+
+theorem takeN_append_of_eq (n : Nat) (a b : List Nat) (h : n = a.length) : takeN n (a ++ b) = some (a, b) := by
+  subst h; exact takeN_append a b
+
+/-! ## the GT block -/
+
+theorem bcfGtRes_render (g : GtRes) (h : WfGt g) : bcfGtRes (renderGtBcf g) = some g := by
+  cases g with
+  | genotype k =>
+    have hk : k ≤ 2 := h
+    match k, hk with
+    | 0, _ => decide
+    | 1, _ => decide
+    | 2, _ => decide
+  | skipped s => cases s <;> decide
+  | ploidyError => decide
+
+theorem renderGtBcf_pair (g : GtRes) : ∃ a b, renderGtBcf g = [a, b] := by
+  cases g with
+  | genotype k =>
+    match k with
+    | 0 => exact ⟨_, _, rfl⟩
+    | 1 => exact ⟨_, _, rfl⟩
+    | _ + 2 => exact ⟨_, _, rfl⟩
+  | skipped s => cases s <;> exact ⟨_, _, rfl⟩
+  | ploidyError => exact ⟨_, _, rfl⟩
+
+theorem flatMap_renderGtBcf_length (gts : List GtRes) : (gts.flatMap renderGtBcf).length = 2 * gts.length := by
+  induction gts with
+  | nil => rfl
+  | cons g gs ih =>
+    obtain ⟨a, b, hab⟩ := renderGtBcf_pair g
+    simp only [List.flatMap_cons, List.length_append, ih, hab, List.length_cons, List.length_nil]; omega
+
+theorem chunksOf_render (gts : List GtRes) :
+    chunksOf 2 gts.length (gts.flatMap renderGtBcf) = gts.map renderGtBcf := by
+  induction gts with
+  | nil => rfl
+  | cons g gs ih =>
+    obtain ⟨a, b, hab⟩ := renderGtBcf_pair g
+    simp only [List.flatMap_cons, List.length_cons, chunksOf, hab, List.map_cons]
+    simp only [List.cons_append, List.nil_append, List.take_succ_cons, List.take_zero, List.drop_succ_cons, List.drop_zero, ih]
+
+theorem mapM_bcfGtRes_render (gts : List GtRes) (hw : ∀ g ∈ gts, WfGt g) :
+    (gts.map renderGtBcf).mapM bcfGtRes = some gts := by
+  induction gts with
+  | nil => rfl
+  | cons g gs ih =>
+    have h1 := bcfGtRes_render g (hw g (by simp))
+    have h2 := ih (fun x hx => hw x (by simp [hx]))
+    simp [List.mapM_cons, h1, h2]
+
+theorem bcfIndiv_render (gts : List GtRes) (hw : ∀ g ∈ gts, WfGt g) :
+    bcfIndiv (some 1) gts.length 1 ([0x11, 1, 0x21] ++ gts.flatMap renderGtBcf) = some gts := by
+  have hlen := flatMap_renderGtBcf_length gts
+  have ht : takeN (gts.length * 2) (gts.flatMap renderGtBcf) = some (gts.flatMap renderGtBcf, []) := by
+    have := takeN_append_of_eq (gts.length * 2) (gts.flatMap renderGtBcf) [] (by omega)
+    simpa using this
+  simp [bcfIndiv, bcfTypedInt, bcfDescriptor, bcfTypeSize, ht, chunksOf_render, mapM_bcfGtRes_render gts hw]
+
+/-! ## one record -/
+
+theorem bcfRecord_encode (h : VcfHeader) (ci pos : Nat) (contig : String) (gts : List GtRes)
+    (hci : ci < 2 ^ 31) (hpos : pos < 2 ^ 31) (hn : gts.length < 2 ^ 24) (hs : h.samples.length = gts.length)
+    (hc : h.contigs[ci]? = some contig) (hstr : h.strings.idxOf? "GT" = some 1) (hw : ∀ g ∈ gts, WfGt g) :
+    bcfRecord h (toLe32 ci ++ toLe32 pos ++ toLe32 1 ++ [0x01, 0x00, 0x80, 0x7f] ++ toLe32 (2 * 65536) ++
+        toLe32 (16777216 + gts.length) ++ [0x07, 0x17, 65, 0x17, 67, 0x00])
+      ([0x11, 1, 0x21] ++ gts.flatMap renderGtBcf) = some (Rec.gts contig (pos + 1) gts) := by
+  have e1 : leNat [ci % 256, ci / 256 % 256, ci / 65536 % 256, ci / 16777216 % 256] = ci := by
+    simp only [leNat]; omega
+  have e2 : leNat [pos % 256, pos / 256 % 256, pos / 65536 % 256, pos / 16777216 % 256] = pos := by
+    simp only [leNat]; omega
+  have e3 : leNat [(16777216 + gts.length) % 256, (16777216 + gts.length) / 256 % 256,
+      (16777216 + gts.length) / 65536 % 256] = gts.length := by
+    simp only [leNat]; omega
+  have e4 : (16777216 + gts.length) / 16777216 % 256 = 1 := by omega
+  have c3 : ¬ ci / 16777216 % 256 ≥ 128 := by omega
+  have p3 : ¬ pos / 16777216 % 256 ≥ 128 := by omega
+  have hi := bcfIndiv_render gts hw
+  simp only [List.cons_append, List.nil_append] at hi
+  simp only [toLe32, List.cons_append, List.nil_append, bcfRecord, e1, e2, e3, e4, c3, p3, hs, hc, hstr,
+    hi, ne_eq, not_true_eq_false, or_self, if_false, Option.map_some]
+
+/-! ## the record loop -/
+
+theorem bcfRecords_step (h : VcfHeader) (fuel : Nat) (shared indiv rest : List Nat) (r : Rec) (rs : List Rec)
+    (hs : shared.length < 2 ^ 32) (hi : indiv.length < 2 ^ 32)
+    (hr : bcfRecord h shared indiv = some r) (hrs : bcfRecords h fuel rest = some rs) :
+    bcfRecords h (fuel + 1) (toLe32 shared.length ++ toLe32 indiv.length ++ shared ++ indiv ++ rest) =
+      some (r :: rs) := by
+  have e1 := leNat_toLe32 shared.length hs
+  have e2 := leNat_toLe32 indiv.length hi
+  simp only [toLe32] at e1 e2
+  have t1 : takeN shared.length (shared ++ (indiv ++ rest)) = some (shared, indiv ++ rest) := takeN_append _ _
+  have t2 : takeN indiv.length (indiv ++ rest) = some (indiv, rest) := takeN_append _ _
+  simp only [toLe32, List.cons_append, List.nil_append, List.append_assoc, bcfRecords, List.isEmpty_cons,
+    Bool.false_eq_true, if_false, e1, e2, t1, t2, hr, hrs]
+
+theorem bcfEncodeRec_eq (contigs : List String) (ncols : Nat) (contig : String) (pos : Nat) (gts : List GtRes) :
+    bcfEncodeRec contigs ncols contig pos gts =
+      toLe32 (toLe32 (contigs.idxOf contig) ++ toLe32 (pos - 1) ++ toLe32 1 ++ [0x01, 0x00, 0x80, 0x7f] ++
+          toLe32 (2 * 65536) ++ toLe32 (16777216 + ncols) ++ [0x07, 0x17, 65, 0x17, 67, 0x00]).length ++
+        toLe32 ([0x11, 1, 0x21] ++ gts.flatMap renderGtBcf).length ++
+        (toLe32 (contigs.idxOf contig) ++ toLe32 (pos - 1) ++ toLe32 1 ++ [0x01, 0x00, 0x80, 0x7f] ++
+          toLe32 (2 * 65536) ++ toLe32 (16777216 + ncols) ++ [0x07, 0x17, 65, 0x17, 67, 0x00]) ++
+        ([0x11, 1, 0x21] ++ gts.flatMap renderGtBcf) := rfl
+
+theorem getElem?_idxOf_of_mem (l : List String) (s : String) (hm : s ∈ l) : l[l.idxOf s]? = some s := by
+  have hlt : l.idxOf s < l.length := List.idxOf_lt_length_of_mem hm
+  rw [List.getElem?_eq_getElem hlt]
+  simp
+
+theorem bcfRecords_encode (cols contigs : List String) (recs : List (String × Nat × List GtRes))
+    (hn : cols.length < 2 ^ 24) (hc : contigs.length < 2 ^ 31)
+    (hw : ∀ r ∈ recs, r.1 ∈ contigs ∧ 1 ≤ r.2.1 ∧ r.2.2.length = cols.length ∧ ∀ g ∈ r.2.2, WfGt g)
+    (hp : ∀ r ∈ recs, r.2.1 ≤ 2 ^ 31) (fuel : Nat) (hf : recs.length < fuel) :
+    bcfRecords ⟨cols, contigs, ["PASS", "GT"]⟩ fuel
+      (recs.flatMap (fun r => bcfEncodeRec contigs cols.length r.1 r.2.1 r.2.2)) = some (toRecs recs) := by
+  induction recs generalizing fuel with
+  | nil =>
+    match fuel, hf with
+    | f + 1, _ => simp [bcfRecords, toRecs]
+  | cons r rs ih =>
+    match fuel, hf with
+    | f + 1, hf =>
+      obtain ⟨contig, pos, gts⟩ := r
+      obtain ⟨hmem, hpos1, hlen, hgt⟩ := hw (contig, pos, gts) (by simp)
+      have hpos2 := hp (contig, pos, gts) (by simp)
+      simp only at hmem hpos1 hlen hgt hpos2
+      have ih' := ih (fun x hx => hw x (by simp [hx])) (fun x hx => hp x (by simp [hx])) f
+        (by simp only [List.length_cons] at hf; omega)
+      have hidx : contigs.idxOf contig < contigs.length := List.idxOf_lt_length_of_mem hmem
+      have hrec := bcfRecord_encode ⟨cols, contigs, ["PASS", "GT"]⟩ (contigs.idxOf contig) (pos - 1) contig gts
+        (by omega) (by omega) (by omega) hlen.symm (getElem?_idxOf_of_mem contigs contig hmem) rfl hgt
+      have hposeq : pos - 1 + 1 = pos := by omega
+      rw [hlen, hposeq] at hrec
+      have hfl := flatMap_renderGtBcf_length gts
+      simp only [List.flatMap_cons]
+      rw [bcfEncodeRec_eq]
+      rw [bcfRecords_step _ f _ _ _ _ _ (by simp [toLe32]) (by simp only [List.length_append, hfl]; simp; omega)
+        hrec ih']
+      simp [toRecs]
+
+/-! ## the whole file -/
+
+theorem bcfDecode_bcfEncode (cols contigs : List String) (recs : List (String × Nat × List GtRes))
+    (h : WfCallSet cols contigs recs) (hs : FitsBcf cols contigs recs) :
+    bcfDecode (bcfEncode cols contigs recs) = some (cols, toRecs recs) := by
+  have hhdr := parseVcfHeaderLines_headerText cols contigs h.cols_ne h.cols_wf h.contigs_wf []
+  rw [List.append_nil] at hhdr
+  have htext := hs.text
+  have hlenText : (headerText cols contigs ++ [0]).length = (headerText cols contigs).length + 1 := by simp
+  have e1 := leNat_toLe32 (headerText cols contigs ++ [0]).length (by rw [hlenText]; exact htext)
+  simp only [toLe32] at e1
+  have t1 := takeN_append (headerText cols contigs ++ [0])
+    (recs.flatMap (fun r => bcfEncodeRec contigs cols.length r.1 r.2.1 r.2.2))
+  have hrecs := bcfRecords_encode cols contigs recs hs.ncols hs.ncontigs h.recs_wf hs.pos
+    ((recs.flatMap (fun r => bcfEncodeRec contigs cols.length r.1 r.2.1 r.2.2)).length + 1) (by
+      sorry)
+  simp only [bcfEncode, toLe32, List.cons_append, List.nil_append, bcfDecode, e1, t1]
+  simp [hhdr, hrecs]
 
 end Sfs
